@@ -1,10 +1,11 @@
 /- Driver/RsTask — C10 model driver: cfg / state / tick -/
 import SuplaVerif.Model.RsTask
 import Driver.Common
+import Driver.FbTask
 namespace Driver.RsTaskDrv
 open SuplaVerif Driver
 
-abbrev St := RsP × RsT
+abbrev St := (RsP × RsT)
 
 def show' (s : RsT) : String :=
   s!"RT pos={s.pos} rel={s.rel} ts={s.tstate} dir={s.dir} upT={s.upT} downT={s.downT}"  -- (pend, sinceStop are internal)
@@ -35,5 +36,15 @@ def step (st : St) (toks : List String) : St × List String :=
     | none => (st, ["BADOP"])
   | _ => (st, [])
 
-def main : IO Unit := do loop (← IO.getStdin) ({ fo := 0, fc := 0, margin := 110, inMove := false }, {}) step
+/-- both models behind one driver: roller shutter ops and facade blind ops -/
+def step2 (st : St × FbTaskDrv.St) (toks : List String) : (St × FbTaskDrv.St) × List String :=
+  match toks with
+  | t :: _ =>
+    if t.startsWith "fb" then let r := FbTaskDrv.step st.2 toks; ((st.1, r.1), r.2)
+    else let r := step st.1 toks; ((r.1, st.2), r.2)
+  | [] => (st, [])
+
+def main : IO Unit := do
+  loop (← IO.getStdin) (({ fo := 0, fc := 0, margin := 110, inMove := false }, {}),
+    ({ fo := 0, fc := 0, margin := 110, inMove := false, ttype := 1, tiltMs := 0 }, {})) step2
 end Driver.RsTaskDrv
